@@ -1,64 +1,54 @@
-//! `vh`: verification harness for fontc. One subcommand per module; see /verif/DESIGN.md.
+//! `vh`: verification harness for fontc. See /verif/DESIGN.md and /verif/docs/MODULE_CONTRACT.md.
+//!
+//! `compile`, `batch` and `project` are built in; every other module `<m>` lives in `src/<m>.rs`, is built
+//! as its own binary `vh-<m>` (src/bin/vh-<m>.rs) and `vh <m> ...` simply runs that binary.
 
 mod compile;
 mod fontutil;
-mod varmodel;
-mod featvars;
-mod coords;
-mod feaparse;
-mod feasem;
-mod glyphset;
-mod kerning;
-mod marks;
-mod components;
-mod names;
-mod limits;
-mod routes;
-mod summary;
-mod sfnt;
-mod instancing;
-mod persist;
 mod project;
 
 use std::process::ExitCode;
 
-/// (name, entry point, one-line help). Each module owns its own file.
-const MODULES: &[(&str, fn(&[String]) -> i32, &str)] = &[
+const BUILTIN: &[(&str, fn(&[String]) -> i32, &str)] = &[
     ("compile", compile::run, "compile one source (optionally traced)"),
     ("batch", compile::run_batch, "compile many sources from ndjson requests on stdin"),
-    ("varmodel", varmodel::run, "see spec/ and checks/ for the module of the same name"),
-    ("featvars", featvars::run, "see spec/ and checks/ for the module of the same name"),
-    ("coords", coords::run, "see spec/ and checks/ for the module of the same name"),
-    ("feaparse", feaparse::run, "see spec/ and checks/ for the module of the same name"),
-    ("feasem", feasem::run, "see spec/ and checks/ for the module of the same name"),
-    ("glyphset", glyphset::run, "see spec/ and checks/ for the module of the same name"),
-    ("kerning", kerning::run, "see spec/ and checks/ for the module of the same name"),
-    ("marks", marks::run, "see spec/ and checks/ for the module of the same name"),
-    ("components", components::run, "see spec/ and checks/ for the module of the same name"),
-    ("names", names::run, "see spec/ and checks/ for the module of the same name"),
-    ("limits", limits::run, "see spec/ and checks/ for the module of the same name"),
-    ("routes", routes::run, "see spec/ and checks/ for the module of the same name"),
-    ("summary", summary::run, "see spec/ and checks/ for the module of the same name"),
-    ("sfnt", sfnt::run, "see spec/ and checks/ for the module of the same name"),
-    ("instancing", instancing::run, "see spec/ and checks/ for the module of the same name"),
-    ("persist", persist::run, "see spec/ and checks/ for the module of the same name"),
-    ("project", project::run, "see spec/ and checks/ for the module of the same name"),
+    ("project", project::run, "project a font into JSON"),
 ];
 
 fn main() -> ExitCode {
     let args: Vec<String> = std::env::args().collect();
     let Some(cmd) = args.get(1) else {
         eprintln!("usage: vh <module> [args]");
-        for (name, _, help) in MODULES {
+        for (name, _, help) in BUILTIN {
             eprintln!("  {name:12} {help}");
         }
+        eprintln!("  <module>     runs the sibling binary vh-<module>");
         return ExitCode::from(2);
     };
-    for (name, run, _) in MODULES {
+    for (name, run, _) in BUILTIN {
         if name == cmd {
             return ExitCode::from(run(&args[2..]) as u8);
         }
     }
-    eprintln!("unknown module {cmd}");
-    ExitCode::from(2)
+    // sibling binary
+    let exe = std::env::current_exe().ok();
+    let sibling = exe
+        .as_ref()
+        .and_then(|p| p.parent())
+        .map(|d| d.join(format!("vh-{cmd}")));
+    match sibling {
+        Some(path) if path.exists() => {
+            match std::process::Command::new(&path).args(&args[2..]).status() {
+                Ok(status) => ExitCode::from(status.code().unwrap_or(2) as u8),
+                Err(e) => {
+                    eprintln!("cannot run {}: {e}", path.display());
+                    ExitCode::from(2)
+                }
+            }
+        }
+        _ => {
+            eprintln!("unknown module {cmd}");
+            ExitCode::from(2)
+        }
+    }
 }
